@@ -36,47 +36,48 @@ NOT_YET = "check not built yet (build in progress; see DESIGN.md §9 build order
 
 DED = "sidecar contracts on the real functions; VCs generated from /repo's current AST by pyvc and discharged by z3 (E-matching) / cvc5"
 BND = "bounded stand-in: the same clauses / an independent oracle evaluated natively on the real code over exhaustively enumerated small scopes (labelled bounded, never counted as proved)"
+XCHK = "every contract clause (assumed contracts included) is additionally evaluated on entry/exit snapshots of real CPython calls (run-time cross-check, not a proof)"
 NOTE = "trusted: pyvc encoding + built-in contracts of list/dict/len/isinstance, z3/cvc5, closed class table; bounded parts are exhaustive only within the stated bounds"
 
-claim("C01", f"{DED} for wf-preservation of the mutators in reach; {BND} for all mutators (model-vs-real sweeps, histories)",
+claim("C01", f"{DED} for wf-preservation of the mutators in reach; {BND} for all mutators (model-vs-real sweeps, histories); {XCHK}",
       "wf(T) (reachability, single parent, exactly-once by identity, acyclic via ghost rank, exact count, unique node ids) is required and ensured by every public mutator: induction over histories. Functions outside the engine's reach are checked by enumerating all wf pre-states up to a bound against the same invariant.", NOTE, "§5 C01")
-claim("C02", f"{DED} for the index invariants I1/I2 and the lookup/clone queries in reach; {BND} for lookups after every mutation",
+claim("C02", f"{DED} for the index invariants I1/I2 and the lookup/clone queries in reach; {BND} for lookups after every mutation; {XCHK}",
       "The id index and the clone lists are exact (clauses I1/I2 of wf, carried by every mutator); each lookup/clone query has a postcondition over those indexes.", NOTE + "; hash and user calc_data_id are uninterpreted", "§5 C02")
-claim("C03", f"{DED} for clause U of wf and the refusal cases in reach; {BND} for every route that could create a duplicate",
+claim("C03", f"{DED} for clause U of wf and the refusal cases in reach; {BND} for every route that could create a duplicate; {XCHK}",
       "Clause U (no two siblings with one data_id) is part of wf; every route that would create a duplicate must raise UniqueConstraintError and leave the tree unchanged.", NOTE, "§5 C03")
-claim("C04", f"functional postconditions + frame conditions of every mutator against an independent executable specification; {DED} where in reach, {BND} elsewhere",
+claim("C04", f"functional postconditions + frame conditions of every mutator against an independent executable specification; {DED} where in reach, {BND} elsewhere; {XCHK}",
       "Each mutator's effect on the abstract view (documented `before` rules, order, frame) is a postcondition taken from the documentation; real code and model run side by side on every enumerated pre-state/argument combination and on random histories.", NOTE + "; list.sort assumed stable", "§5 C04")
-claim("C05", f"{BND} of the round-trip contract load(save(T, opts)) ~ T over trees x option matrix; entry-level encode/decode contracts ({DED}) where in reach",
+claim("C05", f"{BND} of the round-trip contract load(save(T, opts)) ~ T over trees x option matrix; {DED} only for the mapper adapter call_mapper",
       "Document-level round trip is out of the deductive engine's reach (json/zip/io are assumed); decided by the bounded tier over small trees x the full option matrix.", NOTE + "; json/zipfile/io assumed", "§5 C05")
 claim("C06", f"{DED} for call_traversal_cb and the iterator/visit functions in reach (recursive spec sequences Pre/Post); {BND} for all methods x start nodes x control signals",
       "Iterators are specified against recursive mathematical sequences; visit against the same order plus skip/stop semantics.", NOTE + "; random.shuffle, dict order assumed", "§5 C06")
-claim("C07", f"{BND} of the copy contracts (fresh nodes, same data objects/ids/kinds, order, source frame unchanged, independence); {DED} for the shallow routes in reach",
+claim("C07", f"{DED} for the shallow copy routes (add_child with a node child, its shortcuts, copy_to(add_self=True): fresh node, same data object and data_id, source unchanged); {BND} of all copy contracts incl. deep copies, add(tree), Tree.copy (fresh nodes, same data objects/ids/kinds, order, source frame unchanged, independence)",
       "Copy routes are checked against the independent model incl. the source tree's frame (order of its child lists) and mutation of either side afterwards.", NOTE, "§5 C07")
 claim("C08", f"{DED} for call_predicate normalisation; {BND} of filter/filtered/copy(predicate) against a recursive Keep spec over all verdict assignments",
       "Keep(n, V) is defined from the property statement; all assignments of the six verdict kinds (returned/raised) to the nodes of all small trees are enumerated.", NOTE + "; closures with shared mutable state are out of the engine's reach", "§5 C08")
-claim("C09", f"{DED} for the index-path searches and Tree.__getitem__/__contains__ in reach; {BND} for pattern/predicate searches",
+claim("C09", f"{DED} for the index-path searches and Tree.__getitem__/__contains__ in reach; {BND} for pattern/predicate searches; {XCHK}",
       "Search results are specified as the ordered filter of the pre-order sequence; index access by its resolution order and error cases.", NOTE + "; re.fullmatch is an uninterpreted predicate", "§5 C09")
-claim("C10", f"{DED}: every relationship query in reach has a postcondition over parent/children/pos/rank/upk of the entry heap; {BND} for the rest (calc_height, count_descendants, get_path, get_common_ancestor, get_parent_list)",
+claim("C10", f"{DED}: every relationship query in reach has a postcondition over parent/children/pos/rank/upk of the entry heap; {BND} for the rest (calc_height, count_descendants(leaves_only), get_path); {XCHK}",
       "Read-only queries are proved equal to their definition over the abstract view for all wf trees of unbounded size (loops carry inductive invariants with ghost counters); equal-comparing siblings are covered because list searches are specified by identity.", NOTE, "§5 C10")
 claim("C11", f"{BND} of the projection laws of diff over all ordered pairs of small labelled trees x ordered x reduce",
       "diff_tree is a recursion through a closure writing captured sets plus clone lookups and filter: out of the deductive engine's reach; decided by the bounded tier.", NOTE, "§5 C11")
-claim("C12", f"{BND}: writer output checked against the documented layout, independent encoder + literal documentation examples fed to the reader, malformed headers; header validation/entry layout contracts ({DED}) where in reach",
+claim("C12", f"{BND}: writer output checked against the documented layout, independent encoder + literal documentation examples fed to the reader, malformed headers; {DED} only for the mapper adapter call_mapper",
       "Both directions of the documented file layout.", NOTE + "; json assumed", "§5 C12")
-claim("C13", f"{DED}: exceptional postconditions (raises ... ensures unchanged) of the operations in reach, with a forked raising path at every callback invocation; {BND}: every refused call of the sweeps must leave obs() unchanged, callbacks raising at the k-th invocation",
+claim("C13", f"{DED}: exceptional postconditions (raises ... ensures unchanged) of the operations in reach, with a forked raising path at every callback invocation; {BND}: every refused call of the sweeps must leave obs() unchanged, callbacks raising at the k-th invocation; {XCHK}",
       "Refusals leave the tree observably unchanged; callback exceptions leave it well-formed.", NOTE, "§5 C13")
-claim("C14", f"{BND} of to_dict_list/from_dict round trip and shape; {DED} for Tree.to_dict_list safety where in reach",
+claim("C14", f"{BND} of to_dict_list/from_dict round trip and shape; {DED} for Tree.to_dict_list (entry count, tree unmodified, no exception on an emptied tree) and call_mapper",
       "Nested JSON values need a recursive value datatype in the logic; decided by the bounded tier.", NOTE, "§5 C14")
-claim("C15", f"{DED}: all 12 kind-aware TypedNode queries proved against 'filter the child/sibling list by kind' (ghost embedding witnesses); {BND} as cross-check and for TypedTree.iter_by_type",
+claim("C15", f"{DED}: all 12 kind-aware TypedNode queries proved against 'filter the child/sibling list by kind' (ghost embedding witnesses); {BND} as cross-check and for TypedTree.iter_by_type; {XCHK}",
       "Kind-aware queries equal filtering by kind for all typed wf trees of unbounded size, every kind, any_kind on/off, every position.", NOTE, "§5 C15")
-claim("C16", f"{BND}: independent expected-prefix function and a decoder over all styles x titles x add_self x trees; {DED} for _get_prefix where in reach",
+claim("C16", f"{BND}: independent expected-prefix function and a decoder over all styles x titles x add_self x trees (nothing in the deductive tier)",
       "Concrete strings for every style of the style table.", NOTE, "§5 C16")
-claim("C17", f"{BND}: DOT/Mermaid text parsed back, RDF graph queried, compared with the tree for all small trees x options",
+claim("C17", f"{BND}: DOT/Mermaid text parsed back, RDF graph queried, compared with the tree for all small trees x options; {DED} only for the mapper adapter call_mapper",
       "Exports are generators over abstract formatting; the concrete text is decided by the bounded tier.", NOTE + "; rdflib assumed", "§5 C17")
 claim("C18", f"{DED}: lock-discipline obligations (every structure read of a snapshot operation happens while tree._lock is held; held count restored on every exit) generated from the real source; native two-thread harness as witness side",
       "Contracts cannot quantify over schedules; they discharge what the schedule argument needs from the code, given the assumed RLock contract.", NOTE + "; threading.RLock mutual exclusion assumed; no schedule explored", "§5 C18")
 claim("C19", f"{BND} on generated real directories (oracle os.scandir), sort on/off, save/load with the FileSystemTree mappers",
       "The function's content is its interaction with the OS, which a contract can only assume.", NOTE + "; pathlib/OS assumed", "§5 C19")
-claim("C20", f"{BND} over generated structure definitions x seeds x tree classes; {DED} for the integer randomizers / _merge_specs where in reach",
+claim("C20", f"{BND} over generated structure definitions x seeds x tree classes (nothing in the deductive tier)",
       "Whole-tree conformance is decided by the bounded tier; randomness is assumed.", NOTE + "; random, float/date arithmetic assumed", "§5 C20")
 
 # properties whose check is wired up (native module present and triaged)
